@@ -404,6 +404,13 @@ class Gen:
                     taken_types.add(nm.pascal)
                     self.features.add("derived-type-named-like-its-foreign-base")
         content = self.make_content(fidx, taken)
+        import random as _random
+        if base is None and _random.Random("attrs-only:" + nm.xml).random() < self.cfg.get("p_attrs_only_type", 0.0):
+            # a type that declares attributes and nothing else (a frequent base type)
+            if not content.attrs:
+                content.attrs.append(Attr(self.names.fresh(taken), TypeRef(r.choice(["string", "int", "boolean"])), r.random() < 0.4))
+            content.group = None
+            self.features.add("attributes-only-type")
         if base is not None and "extension-attributes" in self.q:
             content.attrs = []
         if base is not None and content.attrs:
@@ -774,11 +781,26 @@ class Gen:
             elem_files = [0] + [j for j in set(f0.imports) if j != 0 and r.random() < 0.5]
 
             def make_message(nheaders, reuse_part_names=()):
+                import random as _random
                 parts = []
                 pn = set()
                 reuse = list(reuse_part_names)
                 body_el = new_element(elem_files)
                 els = [("body", body_el)] + [("header", new_element(elem_files)) for _ in range(nheaders)]
+                hdrs = [g for role, g in els if role == "header"]
+                others = [j for j in set(f0.imports) | {0} if hdrs and j != hdrs[0].file]
+                if len(hdrs) >= 2 and others and _random.Random("hdr-namesake:" + hdrs[0].name.xml).random() < self.cfg.get("p_header_namesakes", 0.0):
+                    # two header elements with one local name, in two namespaces (c:Context and tns:Context)
+                    fj = _random.Random("hdr-namesake-file:" + hdrs[0].name.xml).choice(sorted(others))
+                    if not any(c.name.pascal == hdrs[0].name.pascal for c in self.files[fj].components):
+                        twin = GlobalElement(Name(hdrs[0].name.words, hdrs[0].name.style, hdrs[0].name.literal),
+                                             content=self.make_content(fj, {hdrs[0].name.snake} if self.cfg.get("avoid_nested_same_name") else set(),
+                                                                       allow_empty=False), file=fj)
+                        self.created.append(twin)
+                        self.files[fj].components.append(twin)
+                        k = next(i for i, (role, g) in enumerate(els) if g is hdrs[1])
+                        els[k] = ("header", twin)
+                        self.features.add("header-elements-share-a-local-name")
                 r.shuffle(els)
                 body_part = None
                 headers = []
